@@ -1,6 +1,7 @@
 package core
 
 import (
+	"html"
 	"io"
 )
 
@@ -26,7 +27,7 @@ func (c *Link) Style(style string) *Link {
 func (c *Link) WriteHTMLTo(w io.Writer) (int64, error) {
 	attributes := map[string]string{
 		"style": c.style,
-		"href":  c.dest,
+		"href":  html.EscapeString(c.dest),
 	}
 
 	return NewTag("a", attributes, c.body).WriteHTMLTo(w)
